@@ -61,6 +61,9 @@ func genProgram(rng *rand.Rand, o genOpts) (string, map[string]int) {
 		{name: "ga", typ: "[]num", alen: 3}, {name: "gm", typ: "{}num", keys: []string{"a", "b"}}}
 	n := 1 + rng.Intn(o.MaxStmts)
 	g.block(0, n, 0)
+	if rng.Intn(3) == 0 {
+		g.aliasFan()
+	}
 	// use the accumulators so that the parser's unused-variable rule is satisfied
 	g.line(0, "gn = gn + 0")
 	g.line(0, `gs = gs + ""`)
@@ -394,6 +397,10 @@ func (g *bcProgGen) stmt(ind, depth int) {
 		g.unsupported(ind)
 		return
 	}
+	if ind == 0 && len(g.scopes) == 1 && r.Intn(9) == 0 {
+		g.aliasFan()
+		return
+	}
 	switch {
 	case k < 18: // declaration
 		typ := bcGenTypes[r.Intn(len(bcGenTypes))]
@@ -610,4 +617,93 @@ func (g *bcProgGen) unsupported(ind int) {
 	s, f := forms[r.Intn(len(forms))]()
 	g.feat["unsupported:"+f]++
 	g.line(ind, s)
+}
+
+// numList renders n small number literals.
+func (g *bcProgGen) numList(n int) string {
+	parts := make([]string, n)
+	for i := range parts {
+		parts[i] = fmt.Sprint(g.rng.Intn(90) + 10)
+	}
+	return strings.Join(parts, " ")
+}
+
+// aliasFan emits, at top level (every intermediate array is a global), chains
+// and fans of array results that must NOT share storage: several
+// concatenations from one shared left operand (itself a concatenation, slice
+// or repetition result, lengths 1-9 so that an append-style capacity growth
+// would matter), slices of those results, `x + []`, then an element
+// assignment through every result, and finally a read of every array involved.
+func (g *bcProgGen) aliasFan() {
+	r := g.rng
+	g.feat["alias-fan"]++
+	var arrs []*bcGvar
+	newArr := func(expr string, n int) *bcGvar {
+		v := &bcGvar{name: g.fresh("q"), typ: "[]num", alen: n, ro: true}
+		g.line(0, v.name+" := "+expr)
+		g.scopes[0].vars = append(g.scopes[0].vars, v)
+		arrs = append(arrs, v)
+		return v
+	}
+	// the shared base: a literal of length 1-9, or an existing global array of known length
+	baseLen := []int{1, 2, 3, 3, 4, 5, 6, 7, 8, 9}[r.Intn(10)]
+	base := newArr("["+g.numList(baseLen)+"]", baseLen)
+	// the shared left operand: a result (concatenation / repetition / slice / + [])
+	var left *bcGvar
+	switch r.Intn(5) {
+	case 0:
+		k := 1 + r.Intn(3)
+		left = newArr(base.name+" + ["+g.numList(k)+"]", baseLen+k)
+	case 1:
+		left = newArr(base.name+" * 2", 2*baseLen)
+	case 2:
+		hi := 1 + r.Intn(baseLen)
+		left = newArr(fmt.Sprintf("%s[0:%d]", base.name, hi), hi)
+	case 3:
+		left = newArr(base.name+" + []", baseLen)
+	default:
+		k := 1 + r.Intn(2)
+		mid := newArr(base.name+" + ["+g.numList(k)+"]", baseLen+k)
+		left = newArr(mid.name+" + ["+g.numList(1)+"]", baseLen+k+1)
+	}
+	// a fan: 2-3 different results from the same left operand, all kept live
+	fan := 2 + r.Intn(2)
+	for i := 0; i < fan; i++ {
+		switch r.Intn(6) {
+		case 0, 1, 2:
+			k := 1 + r.Intn(2)
+			newArr(left.name+" + ["+g.numList(k)+"]", left.alen+k)
+		case 3:
+			newArr(left.name+" + []", left.alen)
+		case 4:
+			hi := 1 + r.Intn(left.alen)
+			newArr(fmt.Sprintf("%s[0:%d]", left.name, hi), hi)
+		default:
+			hi := 1 + r.Intn(left.alen)
+			newArr(fmt.Sprintf("%s[:%d] + [%s]", left.name, hi, g.numList(1)), hi+1)
+		}
+	}
+	// a chain from one of the fan results
+	if r.Intn(2) == 0 {
+		last := arrs[len(arrs)-1]
+		c1 := newArr(last.name+" + ["+g.numList(1)+"]", last.alen+1)
+		newArr(c1.name+" + ["+g.numList(1)+"]", c1.alen+1)
+	}
+	// element assignments through (almost) every result, in random order
+	perm := r.Perm(len(arrs))
+	for _, i := range perm {
+		if r.Intn(4) == 0 {
+			continue
+		}
+		v := arrs[i]
+		idx := r.Intn(v.alen)
+		if r.Intn(3) == 0 {
+			idx = v.alen - 1
+		}
+		g.line(0, fmt.Sprintf("%s[%d] = %d", v.name, idx, 1000+r.Intn(9000)))
+	}
+	// final reads of all (also satisfies the unused-variable rule)
+	for _, v := range arrs {
+		g.line(0, v.name+" = "+v.name)
+	}
 }
